@@ -270,12 +270,160 @@ func main() {
 	close(start)
 	wg.Wait()
 	zeroBudget(charRecipes, wlRecipes)
+	afterFaults(charRecipes, wlRecipes)
+	crowd(wl)
+	crand.Reader = unsyncReader{}
 	if failures > 0 {
 		fmt.Printf("FAIL %d of %d concurrent results violate their recipe; first: %v\n", failures, calls, firstFailure.Load())
 		os.Exit(1)
 	}
 	fmt.Printf("ok workers=%d calls=%d seconds=%d shared: %d char recipes, %d wordlist recipes, 2 word lists, %d separator functions\n",
 		workers, calls, secs, len(charRecipes), len(wlRecipes), len(seps)-1)
+}
+
+type failingReader struct{}
+
+func (failingReader) Read(b []byte) (int, error) { return 0, fmt.Errorf("injected source failure") }
+
+// afterFaults: the random source fails a few times — the documented panic, which the program
+// recovers from, as a long-running service would — and then works again. Whatever the failed
+// draws left behind (a buffer handed back twice, a half-updated table) must not be shared between
+// the goroutines that draw afterwards.
+func afterFaults(charRecipes []*spg.CharRecipe, wlRecipes []*spg.WLRecipe) {
+	crand.Reader = failingReader{}
+	for i := 0; i < 16; i++ {
+		func() {
+			defer func() { _ = recover() }()
+			if i%2 == 0 {
+				_, _ = charRecipes[i%len(charRecipes)].Generate()
+			} else {
+				_, _ = wlRecipes[i%len(wlRecipes)].Generate()
+			}
+			_ = spg.VerifRandomUint32n(uint32(3 + i))
+		}()
+	}
+	crand.Reader = unsyncReader{}
+	var wg sync.WaitGroup
+	start := make(chan struct{})
+	for w := 0; w < 8; w++ {
+		wg.Add(1)
+		go func(w int) {
+			defer wg.Done()
+			defer func() {
+				if r := recover(); r != nil {
+					fail("panic in a worker after recovered source faults: %v", r)
+				}
+			}()
+			<-start
+			for k := 0; k < 400; k++ {
+				atomic.AddInt64(&calls, 1)
+				if k%2 == 0 {
+					r := charRecipes[(w+k)%4]
+					if p, err := r.Generate(); err != nil || len(p.Tokens()) != r.Length {
+						fail("after recovered source faults: char recipe: %v", err)
+					}
+				} else {
+					r := wlRecipes[(w+k)%len(wlRecipes)]
+					if p, err := r.Generate(); err != nil || len(p.Tokens().Atoms()) != r.Length {
+						fail("after recovered source faults: wordlist recipe: %v", err)
+					}
+				}
+			}
+		}(w)
+	}
+	close(start)
+	wg.Wait()
+}
+
+// lockstepReader: a cyclic barrier in the random source. Every Read waits until `n` callers have
+// arrived (or two seconds have passed), so that `n` goroutines making the same call are all inside
+// the same step of it at the same moment: all in the word pick, then all inside the separator
+// function, and so on. The words it hands out are small (accepted by every bound), so every caller
+// makes the same number of reads.
+type lockstepReader struct {
+	n       int
+	mu      *sync.Mutex
+	arrived *int
+	gate    *chan struct{}
+}
+
+func (l lockstepReader) Read(b []byte) (int, error) {
+	l.mu.Lock()
+	*l.arrived++
+	gate := *l.gate
+	if *l.arrived%l.n == 0 {
+		close(gate)
+		*l.gate = make(chan struct{})
+	}
+	v := *l.arrived
+	l.mu.Unlock()
+	select {
+	case <-gate:
+	case <-time.After(2 * time.Second):
+	}
+	for i := range b {
+		b[i] = 0
+	}
+	if len(b) == 4 {
+		b[3] = byte(v * 7)
+		b[2] = byte(v % 3)
+	}
+	return len(b), nil
+}
+
+// crowd: three hundred goroutines make the same call on shared recipes and are held, all at once,
+// in every step of it. Each result must be what the call gives alone: Length atoms, a one-digit
+// separator between each pair of neighbours, the recipe's entropy.
+func crowd(wl *spg.WordList) {
+	const n = 300
+	r := spg.NewWLRecipe(4, wl)
+	r.SeparatorFunc = spg.SFDigits1
+	want := r.Entropy()
+	cr := &spg.CharRecipe{Length: 6, Allow: spg.Lowers | spg.Digits}
+	cwant := cr.Entropy()
+	for round := 0; round < 2; round++ {
+		arrived, gate := 0, make(chan struct{})
+		crand.Reader = lockstepReader{n: n, mu: &sync.Mutex{}, arrived: &arrived, gate: &gate}
+		var wg sync.WaitGroup
+		for w := 0; w < n; w++ {
+			wg.Add(1)
+			go func(w int) {
+				defer wg.Done()
+				defer func() {
+					if rec := recover(); rec != nil {
+						fail("panic in crowd worker: %v", rec)
+					}
+				}()
+				atomic.AddInt64(&calls, 1)
+				if round == 0 {
+					p, err := r.Generate()
+					if err != nil || p == nil {
+						fail("crowd of %d callers: wordlist recipe returned an error: %v", n, err)
+						return
+					}
+					seps := p.Tokens().Separators()
+					if len(p.Tokens().Atoms()) != 4 || len(seps) != 3 {
+						fail("crowd of %d callers on one recipe (Length 4, separator SFDigits1): a caller got %d atoms and %d separators: %q", n, len(p.Tokens().Atoms()), len(seps), p.String())
+						return
+					}
+					for _, sp := range seps {
+						if len(sp) != 1 || sp[0] < '0' || sp[0] > '9' {
+							fail("crowd of %d callers: separator %q is not one digit", n, sp)
+						}
+					}
+					if p.Entropy != want {
+						fail("crowd of %d callers: password entropy %v, the recipe's is %v", n, p.Entropy, want)
+					}
+				} else {
+					p, err := cr.Generate()
+					if err != nil || p == nil || len(p.Tokens()) != 6 || p.Entropy != cwant {
+						fail("crowd of %d callers: character recipe: err=%v", n, err)
+					}
+				}
+			}(w)
+		}
+		wg.Wait()
+	}
 }
 
 // firstUse: values that NO call has touched before the goroutines start — anything the library
